@@ -7,7 +7,7 @@
    timers, executor fairness and CPU time are the world, not the model (DESIGN.md 8, 12.2). *)
 From RsdnsModel Require Import Base Client Timed.
 From RsdnsModel.Spec Require Import Retry.
-From RsdnsModel.Proofs Require Import ClientProofs TimedProofs TimedUntimed TimedSame.
+From RsdnsModel.Proofs Require Import ClientProofs TimedProofs TimedUntimed TimedSame TimedGeneral.
 Open Scope N_scope.
 (* every armed timeout is positive (a zero timeout is an error of set_read_timeout) and expires
    no later than the query lifetime; the UDP one also no later than the current attempt *)
@@ -184,3 +184,10 @@ Theorem C15_all_clients_one_machine : forall smol smol' q lifetime qt buf strate
   client_query_timed true smol q lifetime qt zero_jit zero_jit buf strategy arrs srv =
   client_query_timed false smol' q lifetime qt zero_jit zero_jit buf strategy arrs srv.
 Proof. exact all_clients_one_machine. Qed.
+
+(* RETRIES DISABLED (query_timeout = None): exactly one transmission, at the start of the call — never a
+   second one — in every world: whatever arrives, however late the timers (all four clients) *)
+Theorem C15_no_retries_when_disabled : forall std smol q lifetime jit proc eps queue s r t rest,
+  (forall x, jit x <= eps) -> (forall x, proc x <= eps) -> 0 < lifetime ->
+  exchange_of std smol q lifetime None jit proc queue = (s, r, t, rest) -> s = [tq_start q].
+Proof. exact no_retries_when_disabled. Qed.
